@@ -121,6 +121,7 @@ func genC18Case(t *rapid.T) *C18Case {
 		c.Others = append(c.Others, [2]string{fmt.Sprintf("p%d", i), rapid.SampledFrom([]string{"", "1", "abc", "测试"}).Draw(t, "other")})
 	}
 	c.Pos = rapid.IntRange(0, k).Draw(t, "urlPos")
+	b.T = maybeNamedDeep(t, b.T)
 	return c
 }
 
